@@ -276,7 +276,15 @@ def run(ctx, eng):
     ctx.ob('FLOW.wu-target', f7.qual, 'stream 0 updates the connection '
            'window only', ok, 'frame.stream_id selects the window',
            node=f7.node)
-    # settings delta: every stream, guarded, never the connection window
+    check_settings_delta(ctx, eng)
+    flow.guard_increment_rule(ctx, eng)
+    ctx.assume('window = initial + credits - debits over unbounded '
+               'histories follows from these clauses by induction; the '
+               'induction is not mechanised')
+
+
+def check_settings_delta(ctx, eng):
+    """settings delta: every stream, guarded, never the connection window"""
     f8 = eng.m.func(H + '_flow_control_change_from_settings')
     bad = []
     n = 0
@@ -328,7 +336,3 @@ def run(ctx, eng):
     ctx.ob('FLOW.delta', f9.qual, 'delta from the acknowledged change', ok,
            '_flow_control_change_from_settings(original_value, new_value) of '
            'the INITIAL_WINDOW_SIZE change', node=f9.node)
-    flow.guard_increment_rule(ctx, eng)
-    ctx.assume('window = initial + credits - debits over unbounded '
-               'histories follows from these clauses by induction; the '
-               'induction is not mechanised')
